@@ -9,13 +9,24 @@ THEOREMS = [
     ("EG.props.C09", "C09_release_bound"),
     ("EG.props.C09", "C09_reject_only_when_horizon_full"),
     ("EG.props.C09", "C09_release_period_is_slot_block"),
+    ("EG.props.C09", "C09_mqtt_single"),
+    ("EG.props.C09", "C09_mqtt_multi"),
+    ("EG.props.C09", "C09_unmatched_url_unlimited"),
+    ("EG.props.C09", "C09_reload_keeps_state"),
+    ("EG.props.C09", "C09_refuted_rl_inherit_steals_limiter"),
 ]
 HARNESSES = [
     dict(name="rl", pkg="pkg/util/ratelimiter", files=["harness/ratelimiter/zz_verif_c09_test.go"],
-         run="TestVerifC09", groups=["rl", "multi"], timeout=300),
+         run="TestVerifC09", groups=["rl", "multi"], timeout=300, share=0.7),
+    dict(name="flt", pkg="pkg/filters/ratelimiter", files=["harness/filters_ratelimiter/zz_verif_c09_flt_test.go"],
+         run="TestVerifC09Filter", groups=["flt"], timeout=300, share=0.15,
+         extra_overlay={"pkg/util/ratelimiter/zz_verif_hook.go": "harness/ratelimiter/zz_verif_hook.go"}),
+    dict(name="mqtt", pkg="pkg/object/mqttproxy", files=["harness/mqttproxy/zz_verif_c09_mqtt_test.go"],
+         run="TestVerifC09Mqtt", groups=["mqtt"], timeout=300, share=0.15,
+         extra_overlay={"pkg/util/ratelimiter/zz_verif_hook.go": "harness/ratelimiter/zz_verif_hook.go"}),
 ]
-GROUPS = {"rl": "check_rl", "multi": "check_multi"}
-EXPLAIN = {"rl": "explain_rl", "multi": "explain_multi"}
+GROUPS = {"rl": "check_rl", "multi": "check_multi", "flt": "(check_flt_with pinned)", "mqtt": "check_mqtt"}
+EXPLAIN = {"rl": "explain_rl", "multi": "explain_multi", "flt": "(explain_flt pinned)", "mqtt": "explain_mqtt"}
 CASES = {"quick": 600, "thorough": 20000}
 RULE = ("cases: random policies (T<P, T=0, T=kP, L=1..50) x arrival sequences (bursts, boundary hits, idle gaps); "
         "non-trivial = valid policy and non-empty history; classes add: has-reject(+1) has-wait(+2) non-unit-counts(+4) T<P(+8); "
@@ -41,7 +52,9 @@ MANIFEST = dict(
 
 
 def coq_header(kf_open):
-    return "From EG.lib Require Import Base.\nFrom EG.model Require Import RL RLCheck.\nOpen Scope Z_scope.\n"
+    steal = any(k.get("flag") == "q_rl_inherit_steals_limiter" for k in kf_open)
+    return ("From EG.lib Require Import Base.\nFrom EG.model Require Import RL RLCheck.\nOpen Scope Z_scope.\n"
+            "Definition pinned : quirks := {| q_rl_inherit_steals_limiter := %s |}.\n" % B(steal))
 
 
 def _pairs(xs):
@@ -57,7 +70,33 @@ def encode(c):
         return Rec(m_pol=Rec(mT=Z(i["T"]), mP=Z(i["P"]), mL=L([Z(x) for x in i["L"]])),
                    m_ops=L([T(Z(op["dt"]), L([Z(x) for x in op["count"] or []])) for op in i["ops"] or []]),
                    m_obs=_pairs(o["outs"] or []))
+    if c["grp"] == "mqtt":
+        return Rec(q_req=Z(i["requestRate"]), q_bytes=Z(i["bytesRate"]), q_period=Z(i["timePeriod"]),
+                   q_ops=_pairs(i["ops"] or []), q_obs=L([Z(x) for x in o["outs"] or []]))
+    if c["grp"] == "flt":
+        specs = L([_fspec(s) for s in i["specs"]])
+        steps = o.get("steps") or []
+        ops = []
+        for op, st in zip(i["ops"], steps):
+            if op["op"] == "init":
+                ops.append(C("IInit", Nat(op["spec"]), Z(op["dt"]), L([Z(x) for x in st.get("refs") or []])))
+            elif op["op"] == "inherit":
+                refs = [-2] if st.get("code") == 2 else (st.get("refs") or [])
+                ops.append(C("IInherit", Nat(op["spec"]), Nat(st["gen"]), Z(op["dt"]), L([Z(x) for x in refs])))
+            else:
+                ops.append(C("IHandle", Nat(st["gen"]), Z(op["dt"]), L([B(x) for x in st.get("matches") or []]), Z(st["code"])))
+        bad = bool(o.get("bad")) or len(steps) != len(i["ops"])
+        return Rec(fc_specs=specs, fc_ops=L(ops), fc_bad=B(bad))
     raise ValueError(c["grp"])
+
+
+def _fspec(s):
+    return Rec(
+        fs_policies=L([Rec(fp_name=S(p["name"]), fp_T=S(p["T"]), fp_P=S(p["P"]), fp_L=Z(p["L"]),
+                           fp_Tns=Z(p["Tns"]), fp_Pns=Z(p["Pns"])) for p in s["policies"] or []]),
+        fs_default=S(s["default"]),
+        fs_urls=L([Rec(fu_methods=L([S(m) for m in u["methods"] or []]), fu_exact=S(u["exact"]), fu_prefix=S(u["prefix"]),
+                       fu_regex=S(u["regex"]), fu_ref=S(u["ref"])) for u in s["urls"] or []]))
 
 
 def distribution(cases):
@@ -67,10 +106,11 @@ def distribution(cases):
         n = len(c["in"].get("ops") or [])
         b = "%d-%d" % (n // 10 * 10, n // 10 * 10 + 9)
         d["ops_hist"][b] = d["ops_hist"].get(b, 0) + 1
-        for code, w in (c["obs"].get("outs") or []):
-            d["arrivals"] += 1
-            d["rejects"] += code == 0
-            d["waits"] += (code == 1 and w > 0)
+        if c["grp"] in ("rl", "multi"):
+            for code, w in (c["obs"].get("outs") or []):
+                d["arrivals"] += 1
+                d["rejects"] += code == 0
+                d["waits"] += (code == 1 and w > 0)
     return d
 
 
